@@ -336,7 +336,8 @@ TECHNIQUE = "runtime monitoring: before/after state monitor (PURE) around every 
 LEVEL_TEXT = ("Exploration by runtime monitoring: the PURE monitor snapshots ordered content, registered namespaces and default namespaces of the "
               "whole document before and after every call of every exporter (json/xml/rdf/provn with options, get_provn, DOT, graph), of ==/!=, "
               "of unified() and flattened(), in random orders and repetitions on generated documents; record-level hash/==/!=/str purity and the "
-              "repeatability of text exports (same call twice; twin document built by the same program; RDF by isomorphism) are checked by the driver.")
+              "repeatability of text exports (same call twice; twin document built by the same program; RDF by isomorphism) are checked by the driver."
+              " A quarter of the documents is built unobserved (the first export is then really the first), == / != is also run against a same-shaped document of other namespaces with snapshots of both operands, the PURE snapshot includes the ownership of bundles, and a twin built in a fresh interpreter process is compared by content.")
 LEVEL_NOTE = ("Trusted: the snapshot functions (read internal tables directly, never call library comparisons), rdflib.compare for RDF isomorphism. "
               "Within-process determinism only; bounded documents.")
 DESIGN_REF = "DESIGN.md section 5 (PURE) and section 6, C13"
